@@ -19,9 +19,13 @@ def run(ctx):
                 "removing the key an iterator is parked on (also twice, then get / re-put), the last entry, all entries; "
                 "35% of the cases removals only; most cases end with every iterator freed (some run to the end first) "
                 "followed by a dictionary tail (get/rm/put/count, complete foreach, destroy); key sets as for C17; "
-                "LeakSanitizer at exit; a case is non-trivial if it reaches a tagged situation (rm-parked, "
+                "LeakSanitizer at exit (ht, sl); a case is non-trivial if it reaches a tagged situation (rm-parked, "
                 "rm-twice-zombie, get-zombie, reinsert-while-zombie, deferred-delete, multi-iter, iter-abandoned, "
-                "next-after-end, ...); distinct by SHA1 of the op lines")
+                "next-after-end, ...); distinct by SHA1 of the op lines; hashtable: exact comparison with the Lean model + "
+                "oracle; skiplist and trie: the real code against the python oracle only, generators do not avoid the "
+                "classes of the recorded findings K_C18_sl (D16) and K_C18_trie_split (D83), failures inside them are "
+                "counted as known-class-hit; traversal order = strcmp order (skiplist) / signed-char byte order (trie); "
+                "hashtable and skiplist under LeakSanitizer, the trie without (D82, outside C18)")
     mapcheck.run(ctx, "C18", STREAMS, mapgen.gen_c18, mapgen.oracle_c18, 1500, 30000,
                  extra_selfcheck=lambda c: mapcheck.monitor_selfcheck(c, STREAMS, c.scale(150, 1500)),
                  oracle_streams=ORACLE_STREAMS, noracle=(700, 10000))
